@@ -391,6 +391,12 @@ Definition OPEN_tax_inz : sector -> bool :=
   | None => fun _ => false
   end.
 
+Lemma OPEN_run_ok : build_run2 p_OPEN = Ok OPEN_run.
+Proof. vm_compute. reflexivity. Qed.
+
+Lemma OPEN_tax_entry_In : List.In OPEN_tax_entry (q_gen OPEN_run).
+Proof. apply (nth_error_In _ 3). vm_compute. reflexivity. Qed.
+
 Definition opt_fullcode (o : option sector) : string := match o with Some s => fullcode s | None => "" end.
 
 (** CA's tax flow taxes CA_HH (sector 1) and not US_HH (sector 10), although US_HH is a taxable sector of
@@ -407,12 +413,13 @@ Example tax_isolation_example_OPEN :
      find_sec 10 (h_zone (snd OPEN_tax_entry)) = Some us_hh) /\
   map sid (filter (is_payer 3) OPEN_tax_Z) = [1; 10]%nat.
 Proof.
-  split; [vm_compute; reflexivity|].
-  split; [vm_compute; tauto|].
+  split; [exact OPEN_run_ok|].
+  split; [exact OPEN_tax_entry_In|].
   split; [vm_compute; reflexivity|]. split; [vm_compute; reflexivity|]. split; [vm_compute; reflexivity|].
   split; [vm_compute; reflexivity|]. split; [vm_compute; reflexivity|].
   split; [|vm_compute; reflexivity].
-  eexists. split; [vm_compute; reflexivity|]. repeat split; vm_compute; reflexivity.
+  eexists. split; [vm_compute; reflexivity|].
+  split; [vm_compute; reflexivity|]. split; [vm_compute; reflexivity|]. split; vm_compute; reflexivity.
 Qed.
 
 (** a variant tax model that scans the whole MODEL instead of the tax flow's currency zone *)
@@ -438,7 +445,99 @@ Lemma tax_whole_model_refuted :
   map sid (filter (is_payer 3) OPEN_tax_Z) = [1; 10]%nat /\
   map sid (filter (is_payer 3) (filter OPEN_tax_inz OPEN_tax_Z)) = [1%nat].
 Proof.
+  split; [exact OPEN_run_ok|].
+  split; [exact OPEN_tax_entry_In|].
+  split; [vm_compute; reflexivity|]. split; [vm_compute; reflexivity|]. split; [vm_compute; reflexivity|].
+  split; [vm_compute; reflexivity|]. split; [vm_compute; reflexivity|]. split; vm_compute; reflexivity.
+Qed.
+
+(* ------------------------------------------------------------------ *)
+(** * Sharpness for dividends: two countries (two currency zones), each with capitalists and a firm *)
+
+Definition econ_div (ci : nat) : list step2 :=
+  [ S2Sector ci "GOV" (COld CGov);
+    S2Sector ci "HH" (COld (CHousehold "0.6000" "0.4000" "GOOD" "LAB"));
+    S2Sector ci "CAP" (COld (CCapitalists "0.7000" "0.3000" "GOOD"));
+    S2Sector ci "BUS" (COld (CBusiness false "0.900" "0.100" "LAB" "GOOD"));
+    S2Sector ci "TF" (COld (CTaxFlow "0.2000" "GOV"));
+    S2Sector ci "LAB" (COld CMarket);
+    S2Sector ci "GOOD" (COld CMarket) ].
+
+Definition p_DIV2 : program2 :=
+  ([S2Country "US" None false] ++ econ_div 0 ++ [S2External; S2Country "CA" None false] ++ econ_div 2 ++
+   [ S2Op (UOld (OSetExogenous 0 "DEM_GOOD" "[20.0]*40")); S2Op (UOld (OSetExogenous 10 "DEM_GOOD" "[25.0]*40")) ])%list.
+
+Definition DIV2_run : run2 :=
+  match build_run2 p_DIV2 with Ok r => r | Err _ => mkRun2 (mkI2 [] [] [] None) [] [] [] [] (mkFS [] [] []) end.
+
+(** the _GenerateEquations call of CA's firm (sector 13) *)
+Definition DIV2_entry : (nat * cls2) * gstate2 * gstate2 :=
+  nth 13 (q_gen DIV2_run) ((0%nat, CXR), mkG2 [] [] [], mkG2 [] [] []).
+Definition DIV2_Z : zone := h_zone (snd (fst DIV2_entry)).
+Definition DIV2_C : list sector := filter (in_country "CA") DIV2_Z.
+
+Lemma DIV2_run_ok : build_run2 p_DIV2 = Ok DIV2_run.
+Proof. vm_compute. reflexivity. Qed.
+
+Lemma DIV2_entry_In : List.In DIV2_entry (q_gen DIV2_run).
+Proof. apply (nth_error_In _ 13). vm_compute. reflexivity. Qed.
+
+(** CA_BUS pays its dividends to CA_CAP (sector 12), the first candidate of ITS country, although US_CAP
+    (sector 2) is a candidate that comes first in Model.GetSectors(); US_CAP leaves the step as it entered *)
+Example dividend_isolation_example_DIV2 :
+  build_run2 p_DIV2 = Ok DIV2_run /\ List.In DIV2_entry (q_gen DIV2_run) /\
+  fst (fst DIV2_entry) = (13%nat, COld (CBusiness false "0.900" "0.100" "LAB" "GOOD")) /\
+  map fullcode DIV2_C = ["CA_GOV"; "CA_HH"; "CA_CAP"; "CA_BUS"; "CA_TF"; "CA_LAB"; "CA_GOOD"] /\
+  biz_ids2 (q_info DIV2_run) DIV2_C = [13%nat] /\
+  option_map fullcode (find (candidate (biz_ids2 (q_info DIV2_run) DIV2_C) 13) DIV2_C) = Some "CA_CAP" /\
+  option_map fullcode (find (candidate (biz_ids2 (q_info DIV2_run) DIV2_Z) 13) DIV2_Z) = Some "US_CAP" /\
+  (exists us_cap, find_sec 2 DIV2_Z = Some us_cap /\ fullcode us_cap = "US_CAP" /\
+     in_country "CA" us_cap = false /\ find_sec 2 (h_zone (snd DIV2_entry)) = Some us_cap) /\
+  (exists ca_cap ca_cap', find_sec 12 DIV2_Z = Some ca_cap /\ find_sec 12 (h_zone (snd DIV2_entry)) = Some ca_cap' /\
+     receive_div false "CA_BUS__PROF" ca_cap = Ok ca_cap').
+Proof.
+  split; [exact DIV2_run_ok|]. split; [exact DIV2_entry_In|].
+  split; [vm_compute; reflexivity|]. split; [vm_compute; reflexivity|]. split; [vm_compute; reflexivity|].
+  split; [vm_compute; reflexivity|]. split; [vm_compute; reflexivity|].
+  split.
+  - eexists. split; [vm_compute; reflexivity|].
+    split; [vm_compute; reflexivity|]. split; vm_compute; reflexivity.
+  - eexists. eexists. split; [vm_compute; reflexivity|]. split; vm_compute; reflexivity.
+Qed.
+
+(** a variant that scans the whole MODEL for the dividend receiver (same wage-bill texts) books the
+    dividends of CA_BUS on US_CAP: a different state from the step of the model *)
+Definition firm_allcountries (J : ginfo2) (i : nat) (rs : list (string * string)) (Z : zone) : result zone :=
+  firm_generate (biz_ids2 J Z) (i, rs) Z.
+
+
+Definition DIV2_rs : list (string * string) := wage_resets false "0.900" "0.100" "LAB" "CA_GOOD__SUP_GOOD".
+Definition DIV2_Zall : zone :=
+  match firm_allcountries (q_info DIV2_run) 13 DIV2_rs DIV2_Z with Ok z => z | Err _ => [] end.
+Definition div_eqn_of (j : nat) (Z : zone) : option eqn :=
+  match find_sec j Z with Some s => lookup_var "DIV" (vars s) | None => None end.
+
+Lemma dividend_whole_model_refuted :
+  build_run2 p_DIV2 = Ok DIV2_run /\ List.In DIV2_entry (q_gen DIV2_run) /\
+  fst (fst DIV2_entry) = (13%nat, COld (CBusiness false "0.900" "0.100" "LAB" "GOOD")) /\
+  (* the step of the model, as in [main2_dividend_country_isolation] *)
+  (exists C', firm_generate (biz_ids2 (q_info DIV2_run) DIV2_C) (13%nat, DIV2_rs) DIV2_C = Ok C' /\
+              h_zone (snd DIV2_entry) = put_back_p (in_country "CA") C' DIV2_Z) /\
+  (* the whole-model variant *)
+  firm_allcountries (q_info DIV2_run) 13 DIV2_rs DIV2_Z = Ok DIV2_Zall /\
+  (* US_CAP: untouched by the model, credited with CA_BUS's profits by the variant *)
+  div_eqn_of 2 DIV2_Z = Some (mkEqn "" [(1%Z, ["US_BUS__PROF"])]) /\
+  div_eqn_of 2 (h_zone (snd DIV2_entry)) = Some (mkEqn "" [(1%Z, ["US_BUS__PROF"])]) /\
+  div_eqn_of 2 DIV2_Zall = Some (mkEqn "" [(1%Z, ["US_BUS__PROF"]); (1%Z, ["CA_BUS__PROF"])]) /\
+  (* CA_CAP: credited by the model, ignored by the variant *)
+  div_eqn_of 12 DIV2_Z = Some (mkEqn "" []) /\
+  div_eqn_of 12 (h_zone (snd DIV2_entry)) = Some (mkEqn "" [(1%Z, ["CA_BUS__PROF"])]) /\
+  div_eqn_of 12 DIV2_Zall = Some (mkEqn "" []).
+Proof.
+  split; [exact DIV2_run_ok|]. split; [exact DIV2_entry_In|].
   split; [vm_compute; reflexivity|].
-  split; [vm_compute; tauto|].
-  repeat split; vm_compute; reflexivity.
+  split.
+  { eexists. split; vm_compute; reflexivity. }
+  split; [vm_compute; reflexivity|]. split; [vm_compute; reflexivity|]. split; [vm_compute; reflexivity|].
+  split; [vm_compute; reflexivity|]. split; [vm_compute; reflexivity|]. split; vm_compute; reflexivity.
 Qed.
